@@ -795,7 +795,7 @@ func runC16(rc *RunCtx) {
 	p := drawParCfg(t, 20)
 	dir := filepath.Join(rc.Dir, fmt.Sprintf("g%d", rc.Index))
 	os.MkdirAll(dir, 0755)
-	defer os.RemoveAll(dir)
+	defer cleanup(dir)
 	switch which {
 	case 0, 1, 2, 3:
 		c16Grep(rc, t, dir, p)
